@@ -1,6 +1,7 @@
 package app
 
 import "github.com/f1bonacc1/process-compose/src/types"
+import "github.com/f1bonacc1/process-compose/src/verif"
 
 func (p *Process) waitForDaemonCompletion() {
 	if !p.isDaemonLaunched() {
@@ -9,6 +10,7 @@ func (p *Process) waitForDaemonCompletion() {
 
 loop:
 	for {
+		verif.Await("daemon:wait", func() bool { return len(p.procStateChan) > 0 })
 		status := <-p.procStateChan
 		switch status {
 		case types.ProcessStateCompleted:
